@@ -15,8 +15,11 @@ case "$1" in
   INST="$VERIF_BUILD/repo-inst"
   mkdir -p "$INST" && rsync -a --delete --exclude .git "$VERIF_REPO/" "$INST/" || { echo "BUILD-ERROR: cannot copy /repo" >&2; exit 2; }
   go build -o "$VERIF_BUILD/instrument" ./cmd/instrument 2> "$VERIF_BUILD/build-race.log" || { cat "$VERIF_BUILD/build-race.log" >&2; exit 2; }
-  "$VERIF_BUILD/instrument" 'simPoint(20, nil); ' "$INST/bloom/filter.go" "$INST/bloom/merkleblock.go" > "$VERIF_BUILD/instrument.log" 2>&1 \
-    && "$VERIF_BUILD/instrument" 'simPoint(20); ' "$INST/gcs/gcs.go" >> "$VERIF_BUILD/instrument.log" 2>&1 \
+  # every non-test source file of the two packages (also ones a change adds), except the hook files themselves
+  BLOOM_FILES=$(ls "$INST"/bloom/*.go | grep -v '_test.go$' | grep -v '/simhook_' | grep -v '/simsites.go$')
+  GCS_FILES=$(ls "$INST"/gcs/*.go | grep -v '_test.go$' | grep -v '/simhook_' | grep -v '/simsites.go$' | grep -v '/doc.go$')
+  "$VERIF_BUILD/instrument" 'simPoint(20, nil); ' $BLOOM_FILES > "$VERIF_BUILD/instrument.log" 2>&1 \
+    && "$VERIF_BUILD/instrument" 'simPoint(20); ' $GCS_FILES >> "$VERIF_BUILD/instrument.log" 2>&1 \
     || { cat "$VERIF_BUILD/instrument.log" >&2; echo "BUILD-ERROR: instrumentation failed" >&2; exit 2; }
   sed "s#=> /repo#=> $INST#" go.mod > "$VERIF_BUILD/go.race.mod" && cp go.sum "$VERIF_BUILD/go.race.sum"
   go build -race -tags verif -modfile="$VERIF_BUILD/go.race.mod" -o "$VERIF_BUILD/runner-race" ./cmd/runner 2> "$VERIF_BUILD/build-race.log" || { cat "$VERIF_BUILD/build-race.log" >&2; echo "BUILD-ERROR: race runner does not build against /repo" >&2; exit 2; } ;;
